@@ -3,6 +3,7 @@ package checks
 import (
 	"bytes"
 	"fmt"
+	"github.com/zmap/zcrypto/x509"
 	"math/rand"
 	"os"
 	"path/filepath"
@@ -52,7 +53,68 @@ func c10Canary() {
 	wg.Wait()
 }
 
+// Probe lints for what no shipped lint has: a Configurable lint whose configuration struct carries REFERENCE-typed
+// state (a slice, a map, a pointer) that the rule body writes through while it runs. Every execution gets a fresh,
+// freshly configured instance, so this is private to one execution - unless something in the framework starts
+// sharing configured state between instances, which only such a lint can show.
+type c10ProbeCfg struct {
+	Limit   int
+	Scratch []string
+	Seen    map[string]int
+	Last    *string
+}
+
+type c10ProbeCert struct{ cfg c10ProbeCfg }
+
+func newC10ProbeCfg() c10ProbeCfg {
+	s := ""
+	return c10ProbeCfg{Limit: 3, Scratch: make([]string, 0, 64), Seen: map[string]int{}, Last: &s}
+}
+
+func (l *c10ProbeCert) Configure() interface{}              { return &l.cfg }
+func (l *c10ProbeCert) CheckApplies(*x509.Certificate) bool { return true }
+func (l *c10ProbeCert) Execute(c *x509.Certificate) *lint.LintResult {
+	return &lint.LintResult{Status: lint.Notice, Details: c10ProbeWork(&l.cfg, append(append([]string{c.SerialNumber.String()}, c.DNSNames...), c.Subject.CommonName))}
+}
+
+type c10ProbeCRL struct{ cfg c10ProbeCfg }
+
+func (l *c10ProbeCRL) Configure() interface{}                 { return &l.cfg }
+func (l *c10ProbeCRL) CheckApplies(*x509.RevocationList) bool { return true }
+func (l *c10ProbeCRL) Execute(r *x509.RevocationList) *lint.LintResult {
+	items := []string{r.Issuer.String(), r.ThisUpdate.String()}
+	for _, e := range r.RevokedCertificates {
+		items = append(items, e.SerialNumber.String())
+	}
+	return &lint.LintResult{Status: lint.Notice, Details: c10ProbeWork(&l.cfg, items)}
+}
+
+// c10ProbeWork uses the instance's reference-typed state as scratch space and derives the details from it.
+func c10ProbeWork(cfg *c10ProbeCfg, items []string) string {
+	cfg.Scratch = cfg.Scratch[:0]
+	for _, it := range items {
+		cfg.Scratch = append(cfg.Scratch, it)
+		cfg.Seen[it]++
+		*cfg.Last = it
+	}
+	h := 0
+	for i := 0; i < 40; i++ { // read it back several times, as a longer rule body would
+		for _, s := range cfg.Scratch {
+			h = h*31 + len(s) + cfg.Seen[s]
+		}
+	}
+	return fmt.Sprintf("items=%d last=%s distinct=%d h=%d limit=%d", len(cfg.Scratch), *cfg.Last, len(cfg.Seen), h, cfg.Limit)
+}
+
+var c10ProbesOnce sync.Once
+
 func c10Setup(c *mon.Ctx) error {
+	c10ProbesOnce.Do(func() {
+		lint.RegisterCertificateLint(&lint.CertificateLint{LintMetadata: lint.LintMetadata{Name: "n_verif_c10_stateful_cert", Description: "verif probe", Citation: "verif", Source: lint.Community},
+			Lint: func() lint.CertificateLintInterface { return &c10ProbeCert{newC10ProbeCfg()} }})
+		lint.RegisterRevocationListLint(&lint.RevocationListLint{LintMetadata: lint.LintMetadata{Name: "n_verif_c10_stateful_crl", Description: "verif probe", Citation: "verif", Source: lint.Community},
+			Lint: func() lint.RevocationListLintInterface { return &c10ProbeCRL{newC10ProbeCfg()} }})
+	})
 	if err := setupCommon(c); err != nil {
 		return err
 	}
